@@ -139,13 +139,33 @@ func forcedCases(thorough bool) []*Case {
 // randomGen draws the next step from the callers' current (harness-side) states.
 func randomGen(rng *lib.Rand, maxSteps int) func(r *run) *Step {
 	i := 0
+	afterClose := 0
 	return func(r *run) *Step {
 		if i >= maxSteps {
 			return nil
 		}
 		i++
+		if r.shutdown {
+			// the model keeps every internal possibility after shutdown: keep such tails short
+			afterClose++
+			if afterClose > 3 {
+				return nil
+			}
+		}
 		hooks := r.c.Prim == "fifomap" || r.c.Prim == "cmap"
-		rw := r.c.Prim == "cmap" || r.c.Prim == "context"
+		rw := r.c.Prim == "cmap" || r.c.Prim == "context" || r.c.Prim == "outer"
+		if r.c.Prim == "outer" {
+			waiting := false
+			for _, th := range r.th {
+				waiting = waiting || (th.ph == phInLock && th.status == stBlocked)
+			}
+			if waiting && rng.Intn(3) == 0 {
+				return &Step{Do: "sleep", Ms: rng.Range(1, r.c.GraceMs+1)}
+			}
+			if !r.shutdown && rng.Intn(40) == 0 {
+				return &Step{Do: "close"}
+			}
+		}
 		var cands []Step
 		for t := range r.th {
 			th := r.th[t]
@@ -157,6 +177,9 @@ func randomGen(rng *lib.Rand, maxSteps int) func(r *run) *Step {
 				k := rng.Intn(maxi(r.c.Keys, 1))
 				md := "w"
 				if rw && rng.Intn(3) == 0 {
+					md = "r"
+				}
+				if r.c.Prim == "outer" && rng.Intn(2) == 0 {
 					md = "r"
 				}
 				st := lk(t, k, md, hooks && rng.Intn(3) == 0)
@@ -185,6 +208,10 @@ func randomGen(rng *lib.Rand, maxSteps int) func(r *run) *Step {
 			case th.ph == phHolding && !w.busy.Load():
 				st := ul(t, r.c.Prim == "cmap" && rng.Intn(2) == 0, hooks && rng.Intn(3) == 0)
 				cands = append(cands, st, st)
+			case r.c.Prim == "outer" && th.md == "r" && (th.ph == phInLock && th.status == stBlocked) && th.ctx.Err() == nil:
+				if rng.Intn(3) == 0 {
+					cands = append(cands, Step{Do: "cancel", T: t})
+				}
 			case th.ph == phInLock && r.c.Prim == "context" && th.status == stBlocked && th.ctx.Err() == nil:
 				if rng.Intn(2) == 0 {
 					cands = append(cands, Step{Do: "cancel", T: t})
